@@ -170,6 +170,29 @@ func c16Decorate(r *Rng, gs []MG, hostile bool) {
 		if r.Chance(1, 10) {
 			c.Loc = r.Intn(5)
 		}
+		// columns much wider than the others (more than any fixed-size padding buffer)
+		if r.Chance(1, 10) {
+			c.Fn.DN = hb(strings.Repeat("p", 65+r.Intn(200)))
+		}
+		if r.Chance(1, 10) {
+			long := "/very/long/" + strings.Repeat("dir/", 20+r.Intn(40)) + "f.go"
+			c.Local, c.Remote = hb(long), hb(long)
+		}
+		// per cent signs: text that must never be taken for a format
+		if r.Chance(1, 6) {
+			pc := []string{"100%done", "%s", "%d", "%!", "%%", "50%", "%v%v"}[r.Intn(7)]
+			switch r.Intn(4) {
+			case 0:
+				c.Local, c.Remote = hb("/srv/builds/"+pc+"/x.go"), hb("/srv/builds/"+pc+"/x.go")
+				c.Src = hb(pc + ".go")
+			case 1:
+				c.Fn.N = hb("f" + pc)
+			case 2:
+				c.Fn.DN = hb(pc)
+			default:
+				c.Rel = hb(pc + "/x.go")
+			}
+		}
 		if hostile && r.Chance(1, 3) {
 			switch r.Intn(5) {
 			case 0:
